@@ -81,9 +81,22 @@ func (g *gen) field(n int) map[string]any {
 	return map[string]any{"id": []int{0, 101, 200, 300, 65535}[g.r.Intn(5)], "data": g.bytes(n)}
 }
 
+// b4edge: boundary values of an opaque 32-bit header value (0, 1, all ones) as often as a random one
+func (g *gen) b4edge() []int {
+	switch g.r.Intn(6) {
+	case 0:
+		return []int{0, 0, 0, 0}
+	case 1:
+		return []int{0, 0, 0, 1}
+	case 2:
+		return []int{255, 255, 255, 255}
+	}
+	return g.b4()
+}
+
 func (g *gen) txn(fields []any, bound int) {
-	g.add("txn", map[string]any{"flags": 0, "isReply": g.r.Intn(2), "type": []int{0, 107, 200, 354, 65535}[g.r.Intn(5)],
-		"id": g.b4(), "err": g.b4(), "fields": fields}, bound+22)
+	g.add("txn", map[string]any{"flags": g.r.Intn(2), "isReply": g.r.Intn(2), "type": []int{0, 107, 200, 354, 65535}[g.r.Intn(5)],
+		"id": g.b4edge(), "err": g.b4edge(), "fields": fields}, bound+22)
 }
 
 func (g *gen) info(nl, cl int) map[string]any {
